@@ -27,6 +27,23 @@ fn renumber(c: &Constraint, pi: &[u32]) -> Constraint {
     dec_constraint(&out.join(" ")).unwrap()
 }
 
+/// F16's explanation, verified without the implementation's own verdicts: at the base solve's result
+/// the requests of the solved levels are (a) inconsistent — the geometric specification
+/// (`geom.rs`) measures a clear error for at least one of them — and (b) rank-deficient — a
+/// finite-difference Jacobian of the error measures has rank below the number of variables
+/// (`oracle::fd_rank`, own eigenvalue routine).  Only then may an order-dependent `DidNotConverge`
+/// be filed under F16.
+fn indep_drift(sys: &System, base: &SolveOutcomeFreedomAnalysis) -> bool {
+    let x = base.outcome.final_values();
+    let (level, _) = subset(&sys.reqs, base.outcome.priority_solved());
+    let scale = sys.scale.max(1e-9);
+    let inconsistent = level.iter().any(|r| {
+        let g = ezpz_verif_harness::geom::geom_err(r.constraint(), x, scale);
+        !g.degenerate && g.errs.iter().any(|e| !(e.abs() <= 1e-4 * scale.max(1.0)))
+    });
+    inconsistent && fd_rank(&level, x, 1e-6) < x.len()
+}
+
 fn main() {
     let args: Vec<String> = std::env::args().collect();
     let seed: u64 = args[1].parse().unwrap();
@@ -97,7 +114,7 @@ fn main() {
                     // an inconsistent, rank-deficient system can drift forever along the null space
                     // (rounding noise in -J^T r amplified by 1/lambda): whether it does depends on the
                     // summation order
-                    let drift = matches!(e.error, NonLinearSystemError::DidNotConverge) && base.outcome.is_unsatisfied() && base.analysis.is_underconstrained();
+                    let drift = matches!(e.error, NonLinearSystemError::DidNotConverge) && indep_drift(&sys, &base);
                     out.push(Violation { property: "C12", what: format!("a permuted request list fails ({:?}) while the original succeeds", e.error), signature: if drift { "drift-on-inconsistent-rank-deficient".into() } else if matches!(e.error, NonLinearSystemError::FaerSvd(_)) { "svd-no-convergence-under-reordering".into() } else { "perm-fails".into() }, system: Some(sys.clone()), extra: format!("{order:?}") });
                     continue;
                 }
@@ -169,7 +186,7 @@ fn main() {
             let other = match solve_analysis(&reqs, g, sys.config()) {
                 Ok(o) => o,
                 Err(e) => {
-                    let drift = matches!(e.error, NonLinearSystemError::DidNotConverge) && base.outcome.is_unsatisfied() && base.analysis.is_underconstrained();
+                    let drift = matches!(e.error, NonLinearSystemError::DidNotConverge) && indep_drift(&sys, &base);
                     out.push(Violation { property: "C12", what: format!("a renumbered system fails ({:?}) while the original succeeds", e.error), signature: if drift { "drift-on-inconsistent-rank-deficient".into() } else if matches!(e.error, NonLinearSystemError::FaerSvd(_)) { "svd-no-convergence-under-reordering".into() } else { "renumber-fails".into() }, system: Some(sys.clone()), extra: format!("{pi:?}") });
                     continue;
                 }
@@ -201,6 +218,7 @@ fn main() {
             }
         }
     }
+    ezpz_verif_harness::oracle::print_signature_counts(&out);
     let mut seen = std::collections::BTreeSet::new();
     for v in &out {
         if seen.insert(v.signature.clone()) {
